@@ -518,6 +518,7 @@ def run_on(rep, prog):
     from . import c07
     c07.r07g(rep, prog, only_files=('forestindex', 'spanning_forest'))
     c07.r07h(rep, prog, only_files=('forestindex', 'spanning_forest'))
+    c07.r07j(rep, prog, only_files=('forestindex', 'spanning_forest'))
     return n
 
 
@@ -528,6 +529,7 @@ def run(rep, tier):
     rep.rule('R16d', 'copy operations copy every member', floor=2)
     rep.rule('R16f', 'spanning_forest emission sites are guarded and paired with the unreached/queue bookkeeping', floor=1)
     rep.rule('R16e', 'index order is address-free', floor=1)
+    rep.rule('R07j', 'the forest is built without recursion along the graph (any graph size)', floor=0)
     rep.rule('R07h', 'sizes used while building the index do not wrap for the empty graph (ForestIndex of the empty graph: c = 0, dimension 0)', floor=0)
     rep.rule('R07g', 'the index construction keeps no function-local static state (each ForestIndex is built from its own graph only)', floor=0)
     tus = [env.witness_tu()]
